@@ -13,7 +13,7 @@ from ..ref import names
 from ..report import HarnessError
 
 RULE = ('patterns = all sequences of <=d segments over {literal, {v}, {v}-{w}, {v}_{w}, {v}~{w}, {v}.{w}, {a}-{b}~{c}} with an '
-        'optional trailing {v=**} or trailing literal, <=6 variables, plus "*"; x 4 resource sources; values = every class for '
+        'optional trailing {v=**} or trailing literal, <=6 variables, plus "*"; x 7 resource sources; values = every class for '
         'all variables + every single-variable deviation; near misses from the reference tokenizer; non-trivial = distinct '
         '(pattern, valuation) with >=1 variable')
 
@@ -68,13 +68,17 @@ def build(pats, chunk_id):
     """One library: every pattern is a resource visible to service Res."""
     msgs, defs, cells = [], [], []
     dep_defs, dep_msgs = [], []
+    lro_fields = [field('tag', 1, 'string')]
     rq_fields, rs_fields = [field('name', 1, 'string')], []
     for j, pat in enumerate(pats):
         i = chunk_id * 10000 + j
         tn = type_name(j)
         rtype = f'{DOM}/{tn}'
-        src = j % 6
-        if src == 4:      # file-level definition in an imported file of another package
+        src = j % 7
+        if src == 6:      # message resource reachable only through the response type of a long-running operation
+            msgs.append(message(tn, [field('name', 1, 'string')], resource=(rtype, pat)))
+            lro_fields.append(field(f'f{j}', len(lro_fields) + 1, Q(tn)))
+        elif src == 4:      # file-level definition in an imported file of another package
             dep_defs.append((rtype, pat))
             rq_fields.append(field(f'f{j}', len(rq_fields) + 1, 'string', ref=rtype))
         elif src == 5:    # message resource in an imported file of another package, referenced by type
@@ -92,12 +96,16 @@ def build(pats, chunk_id):
         else:             # message resource referenced through type
             msgs.append(message(tn, [field('name', 1, 'string')], resource=(rtype, pat)))
             rq_fields.append(field(f'f{j}', len(rq_fields) + 1, 'string', ref=rtype))
-        cells.append(dict(id=f'{["msg-field", "file-def", "child-type", "type-ref", "dep-file-def", "dep-msg-ref"][src]}:{pat}', pattern=pat,
+        cells.append(dict(id=f'{["msg-field", "file-def", "child-type", "type-ref", "dep-file-def", "dep-msg-ref", "lro-response"][src]}:{pat}', pattern=pat,
                           helper=names.snake(tn), source=src))
     msgs.append(message('GetRq', rq_fields))
     msgs.append(message('GetRs', rs_fields))
+    msgs.append(message('LroOut', lro_fields))
+    msgs.append(message('LroMeta', [field('pct', 1, 'int32')]))
+    from ..desc import OPERATION
     f = file('acme/res/v1/res.proto', P, messages=msgs, resource_defs=defs,
-             services=[service('Res', [method('Get', Q('GetRq'), Q('GetRs'))])])
+             services=[service('Res', [method('Get', Q('GetRq'), Q('GetRs')),
+                                       method('Run', Q('GetRq'), OPERATION, lro=('LroOut', 'LroMeta'))])])
     dep = file('acme/shared/v1/resources.proto', 'acme.shared.v1', messages=dep_msgs, resource_defs=dep_defs)
     std = desc.std_dep_names()
     dep.dependency.extend(std)
